@@ -257,6 +257,27 @@ Definition write_at_cursor (s : st) (at_ : N) (bs : list N) : outcome st :=
 Definition inject_byte_padding_block (s : st) : outcome st :=
   let seal := w32 (N.lor (last_bytes s) (N.shiftl 6 (last_bytes_bits s))) in
   let seal_bits := last_bytes_bits s + 6 in
+  let s0 := upd_bits s 0 0 in
+  (* fix in /repo: with nothing pending the (stale) cursor is dropped first *)
+  let s1 := if avail_out_ s0 =? 0
+            then upd_out s0 NoNone (storage s0) (storage_size s0) (tiny s0) (avail_out_ s0) (total_out_ s0) else s0 in
+  let bytes :=
+    [seal mod 256] ++ (if 8 <? seal_bits then [(seal / 256) mod 256] else [])
+                   ++ (if 16 <? seal_bits then [(seal / 65536) mod 256] else []) in
+  let s2 := match next_out s1 with
+            | NoNone => upd_out s1 (NoTiny 0) (storage s1) (storage_size s1) (tiny s1) (avail_out_ s1) (total_out_ s1)
+            | _ => s1 end in
+  let at_ := match next_out s1 with NoNone => 0 | _ => avail_out_ s1 end in
+  match write_at_cursor s2 at_ bytes with
+  | Done s3 => Done (upd_out s3 (next_out s3) (storage s3) (storage_size s3) (tiny s3)
+                             (avail_out_ s3 + (seal_bits + 7) / 8) (total_out_ s3))
+  | o => o
+  end.
+
+(* as found (before the fix): the stale cursor was used even when nothing was pending *)
+Definition inject_byte_padding_block_asfound (s : st) : outcome st :=
+  let seal := w32 (N.lor (last_bytes s) (N.shiftl 6 (last_bytes_bits s))) in
+  let seal_bits := last_bytes_bits s + 6 in
   let s1 := upd_bits s 0 0 in
   let bytes :=
     [seal mod 256] ++ (if 8 <? seal_bits then [(seal / 256) mod 256] else [])
